@@ -417,7 +417,7 @@ public:
      * @return The new DataFrameDimension
      */
     DataFrameDimension appendDataFrameDimension(const DataFrame &frame, unsigned column_index) {
-        if (column_index > frame.columns().size()) {
+        if (column_index >= frame.columns().size()) {
             throw nix::OutOfBounds("DataArray::appendDataFrameDimensios: Invalid columnIndex ", column_index);
         }
         if (!frame) {
